@@ -751,11 +751,14 @@ def check_builder_records_all(ctx):
 def check_node_identity(ctx, modules, rule='R-KEY/node-identity', floor=1):
     """tables filled inside a loop over the taxonomy levels are keyed by
     (level, label), never by label alone (sa/rules/nodekeys.py)"""
-    from ..rules.nodekeys import check_node_keys
+    from ..rules.nodekeys import (check_node_keys, check_memo_keys,
+                                  check_zip_alignment)
     n = 0
     for fi in ctx.db.iter_functions():
         if fi.module.short.startswith(tuple(modules)):
             n += check_node_keys(ctx, fi, rule)
+            check_memo_keys(ctx, fi)
+            check_zip_alignment(ctx, fi)
     if n < floor:
         raise AnalysisError(f'only {n} keyed stores inside loops over the '
                             f'levels found in {modules}')
